@@ -276,6 +276,18 @@ def check_timeout_propagation(repo: Repo, rep: Report, rule: str = "timeout-prop
     ci = am.classes.get("Association")
     pairs = {"acse_timeout": ("_acse_timeout", "self.dul.artim_timer.timeout"), "network_timeout": ("_network_timeout", "self.dul._idle_timer.timeout")}
     n = 0
+    # the waits of the ACSE / DIMSE providers read their timeout through a getter: it must hand out the value
+    # configured on *this association* (assoc.acse_timeout is a public, per-association setting), not the AE's
+    for mname_, cname_, prop_ in (("acse", "ACSE", "acse_timeout"), ("dimse", "DIMSEServiceProvider", "dimse_timeout")):
+        m_ = repo.mod(mname_)
+        ci_ = m_.classes.get(cname_)
+        g_ = ci_.getters.get(prop_) if ci_ is not None else None
+        if g_ is None:
+            continue
+        n += 1
+        rets_ = [r_ for r_ in walk_no_nested(g_) if isinstance(r_, ast.Return) and r_.value is not None]
+        ok_ = bool(rets_) and all(norm(strip_cast(r_.value)) in (f"self.assoc.{prop_}", f"self._assoc.{prop_}") for r_ in rets_)
+        rep.check(ok_, rule, f"{mname_}.{cname_}.{prop_}", rets_[0] if rets_ else g_, f"the waits of {cname_} take their timeout from `{norm(rets_[0].value) if rets_ else '?'}` instead of the association's own {prop_}: a value set on one association (assoc.{prop_} = 1) is ignored, the wait runs for the AE-wide value (30 s, or for ever with None) - a peer that never answers a release blocks the caller past the configured timeout, and the reactor is paused meanwhile", mod=m_, node=g_)
     for prop, (field, timer) in pairs.items():
         st = ci.setters.get(prop)
         fq = f"association.Association.{prop}"
